@@ -6,6 +6,7 @@ use crate::{
         types::{ItemStateResolved, Type},
         SemanticState,
     },
+    util,
 };
 
 #[derive(PartialEq, Eq, Debug, Clone, Hash)]
@@ -118,6 +119,12 @@ pub fn build(
                 format!("value of case `{name}` of enum `{resolvee_path}` overflows")
             })?,
         };
+        if fields
+            .iter()
+            .any(|(other, _)| util::plain_ident(other) == util::plain_ident(&name.0))
+        {
+            anyhow::bail!("case `{name}` of enum `{resolvee_path}` is defined more than once");
+        }
         fields.push((name.0.clone(), value));
 
         for attribute in attributes {
